@@ -192,7 +192,7 @@ fn one_voice(ctx: &mut Ctx, env: &Env, rng: &mut Rng, base: &Engine, rv: &RefVoi
     {
         let mut e = base.clone();
         for k in 0..nstreams {
-            e.condition.set_msd_threshold(k, if k == 1 { mid } else { rng.f64() });
+            e.condition.set_msd_threshold(k, if k == 1 { *rng.pick(&[mid, 0.0, 0.04]) } else { rng.f64() });
             e.condition.set_gv_weight(k, rng.uniform(0.2, 2.0));
         }
         if let Ok(run) = trajectories(&e, labels.clone()) {
@@ -366,7 +366,7 @@ pub fn run(ctx: &mut Ctx) {
         };
         let labels = env.corpus.random_utterance(rng, 2, 8);
         let mut e = base.clone();
-        let th = *rng.pick(&[0.25, 0.5, 0.6, 0.75, 0.9]);
+        let th = *rng.pick(&[0.25, 0.5, 0.6, 0.75, 0.9, 0.01, 0.0]);
         e.condition.set_msd_threshold(1, th);
         let run = match run_with_hooks(&e, labels.clone()) {
             Ok(r) => r,
